@@ -49,6 +49,10 @@ class BlockNormalizer(Visitor):
         new_circuit.body.statements.extend(self.visit(circuit.body).statements)
         return new_circuit
 
+    def visit_LoopStatement(self, obj):
+        """A loop keeps its count; its body is normalized like any block."""
+        return LoopStatement(obj.iterations, self.visit(obj.statements))
+
     def visit_BlockStatement(self, obj: BlockStatement):
         """Normalize a block by first normalizing every statement or block
         inside it, If this is a parallel block, it is converted to a
